@@ -192,11 +192,11 @@ EXTRA_MODULES = {
     "C01": ["Rawr.Proofs.RustFnsAgree"] + _IMP + ["Rawr.Props.SpecSanity"],
     "C02": _IMP,
     "C04": _IMP,
-    "C05": [_TXT],
-    "C06": ["Rawr.Proofs.RustImpAgree", _TXT, _TXT + "_GetFen", _TXT + "_SetFen"],
+    "C05": [_TXT, _TXT + "_SetFen", _TXT + "_Uci", _TXT + "_Rules"],
+    "C06": ["Rawr.Proofs.RustImpAgree", _TXT, _TXT + "_GetFen", _TXT + "_SetFen", _TXT + "_Rules"],
     "C07": ["Rawr.Proofs.RustImpAgree", _TXT, _TXT + "_SetFen"],
-    "C09": [_TXT],
-    "C15": [_TXT, _TXT + "_Go"],
+    "C09": [_TXT, _TXT + "_SetFen", _TXT + "_Uci", _TXT + "_Rules"],
+    "C15": [_TXT, _TXT + "_Go", _TXT + "_SetFen", _TXT + "_Uci"],
     "C08": ["Rawr.Proofs.RustFnsAgree"] + _IMP + ["Rawr.Proofs.RustSearchAgree", _TXT + "_Go", "Rawr.Props.SpecSanity"],
     "C10": ["Rawr.Proofs.RustFnsAgree"],
     "C14": ["Rawr.Proofs.RustFnsAgree"] + _SRCH,
@@ -204,7 +204,7 @@ EXTRA_MODULES = {
     "C11": _SRCH,
     "C12": _SRCH,
     "C13": _SRCH,
-    "C16": ["Rawr.Proofs.RustSearchAgree", _TXT, _TXT + "_Go"],
+    "C16": ["Rawr.Proofs.RustSearchAgree", _TXT, _TXT + "_Go", _TXT + "_SetFen", _TXT + "_Uci"],
     "C17": ["Rawr.Proofs.RustFnsAgree", "Rawr.Proofs.RustImpAgree"],
     "C18": ["Rawr.Proofs.RustSearchAgree"],
     "C19": ["Rawr.Proofs.RustImpAgree", "Rawr.Proofs.RustSearchAgree", "Rawr.Proofs.RustSearchAgree_Sort", "Rawr.Proofs.RustSearchAgree_QSearch"],
